@@ -1296,6 +1296,7 @@ class DiskRefsContainer(RefsContainer):
         self._check_refname(other)
         filename = self.refpath(name)
         self._check_packed_refs_conflict(name, filename)
+        ensure_dir_exists(os.path.dirname(filename))
         self._remove_empty_dirs_in_the_way(filename)
         f = GitFile(filename, "wb")
         try:
